@@ -219,7 +219,7 @@ func TestVerifC11(t *testing.T) {
 				}
 				nonceV, aadV, ptV := rng.Bytes(c.nl), rng.Bytes(c.al), rng.Bytes(c.pl)
 				sealed := g.Seal(nonceV, ptV, aadV, c.tag)
-				for _, op := range []string{"Seal", "Open", "Open-forged", "Open-short", "Seal-inplace", "Open-inplace"} {
+				for _, op := range []string{"Seal", "Open", "Open-forged", "Open-short", "Seal-inplace", "Open-inplace", "Seal-after-prefix", "Open-after-prefix"} {
 					nonce := gs.get("nonce", nonceV, c.place)
 					aad := gs.get("aad", aadV, c.place)
 					var in []byte
@@ -228,9 +228,11 @@ func TestVerifC11(t *testing.T) {
 					case "Seal":
 						in = gs.get("plaintext", ptV, c.place)
 						need = c.pl + c.tag
-					case "Open":
+					case "Open", "Open-after-prefix":
 						in = gs.get("ciphertext", sealed, c.place)
 						need = c.pl
+					case "Seal-after-prefix":
+						in = gs.get("plaintext", ptV, c.place)
 					case "Open-forged":
 						in = gs.get("ciphertext", flipBit(sealed, rng.Intn(len(sealed)*8)), c.place)
 						need = c.pl
@@ -246,7 +248,13 @@ func TestVerifC11(t *testing.T) {
 						in = gs.get("ciphertext", sealed[:l], c.place)
 					}
 					var dst []byte
-					if op == "Seal-inplace" || op == "Open-inplace" {
+					var prefix []byte
+					if op == "Seal-after-prefix" || op == "Open-after-prefix" {
+						// dst already holds a prefix and has NO room (capacity = length, the prefix ends / starts at an
+						// inaccessible page): the result needs a new array, and exactly the prefix is copied over
+						prefix = rng.Bytes([]int{1, 5, 16, 33, 100}[si%5])
+						dst = gs.get("dst-prefix", prefix, c.place)
+					} else if op == "Seal-inplace" || op == "Open-inplace" {
 						dst = in[:0]
 					} else if c.exactDst {
 						full := gs.get("dst", make([]byte, need), c.place)
@@ -256,7 +264,7 @@ func TestVerifC11(t *testing.T) {
 					var out []byte
 					var oerr error
 					p, msg, isFault, addr := hk.Try(func() {
-						if op == "Seal" || op == "Seal-inplace" {
+						if op == "Seal" || op == "Seal-inplace" || op == "Seal-after-prefix" {
 							out = a.Seal(dst, nonce, in, aad)
 						} else {
 							out, oerr = a.Open(dst, nonce, in, aad)
@@ -271,6 +279,11 @@ func TestVerifC11(t *testing.T) {
 						r.Violation(fmt.Sprintf("gcm-out-of-range-access:%s:%s:%s", pn, op, gs.where(addr)), d)
 					case p:
 						r.Violation(fmt.Sprintf("gcm-panics:%s:%s", pn, op), d)
+					case op == "Seal-after-prefix" && !bytes.Equal(out, append(append([]byte{}, prefix...), sealed...)):
+						r.Violation(fmt.Sprintf("gcm-wrong-result:%s:%s", pn, op), d)
+					case op == "Open-after-prefix" && (oerr != nil || !bytes.Equal(out, append(append([]byte{}, prefix...), ptV...))):
+						d["err"] = fmt.Sprint(oerr)
+						r.Violation(fmt.Sprintf("gcm-wrong-result:%s:%s", pn, op), d)
 					case (op == "Seal" || op == "Seal-inplace") && !bytes.Equal(out, sealed):
 						r.Violation(fmt.Sprintf("gcm-wrong-result:%s:%s", pn, op), d)
 					case (op == "Open" || op == "Open-inplace") && (oerr != nil || !bytes.Equal(out, ptV)):
